@@ -49,7 +49,8 @@ pub fn exec(iter: Variable, function: Variable) -> ExecResult {
 }
 
 pub fn return_type(rhs: Type) -> Type {
-    let element_type = rhs.return_type().unwrap();
+    // the mapper is a function or of type `!` (which yields nothing)
+    let element_type = rhs.return_type().unwrap_or(Type::Never);
     var_type!(()->(bool, element_type))
 }
 
